@@ -114,3 +114,88 @@ pub fn verif_take_proto_trace() -> Vec<String> {
     log.threads.clear();
     std::mem::take(&mut log.lines)
 }
+
+// ---------------------------------------------------------------------------------------------
+// Hook H10: memo-table steps of fetch / maybe_changed_after / execute in the same log.
+//
+// Opt-in at run time (`verif_fetch_trace(true)`).  Records (after `<seq> <logging thread>`):
+//   probe T K none                      get_memo_from_table_for saw no memo
+//   load T K                            get_memo_from_table_for loaded the pointer of a memo
+//   probe T K VER CHG CUR               shallow_verify_memo loaded verified_at = VER of a memo
+//                                       with changed_at = CHG while the current revision is CUR
+//   mark T K CUR                        mark_as_verified stored verified_at = CUR
+//   publish T K VER CHG DIGEST          insert_memo swapped in a memo (DIGEST: FNV-1a of the
+//                                       value's bytes, `-` if it has no value)
+//   exec T K CUR                        execute emitted WillExecute
+//   note T TEXT...                      written by the harness (`verif_note`)
+//
+// Ordering.  Each of probe / mark / publish describes ONE atomic operation on shared memory and
+// is appended immediately after it.  With the `shuttle` feature every such operation is a
+// scheduling point BEFORE the access and none after it, and appending uses `std::sync::Mutex`
+// (no scheduling point), so operation + record are atomic with respect to other tasks.  Without
+// it, `order_guard()` holds a process-wide `std::sync::Mutex` across operation + record, so the
+// log order of probe / mark / publish records is the order of the operations themselves; the
+// protocol records of H2 are appended under the sync-shard / dependency-graph locks as before.
+
+/// H10 records are opt-in (`verif_fetch_trace(true)`): the workloads of the other hooks see the
+/// H2 stream unchanged, and pay nothing for the ordering guard.
+static FETCH: std::sync::atomic::AtomicBool = std::sync::atomic::AtomicBool::new(false);
+
+/// Switch the H10 records (probe / mark / publish / exec / note) on or off.
+pub fn verif_fetch_trace(on: bool) {
+    FETCH.store(on, std::sync::atomic::Ordering::SeqCst);
+}
+
+pub(crate) fn fetch_on() -> bool {
+    FETCH.load(std::sync::atomic::Ordering::SeqCst)
+}
+
+/// `record`, for H10 records: nothing unless switched on.
+pub(crate) fn record_fetch(parts: &[P<'_>]) {
+    if fetch_on() {
+        record(parts);
+    }
+}
+
+#[cfg(not(feature = "shuttle"))]
+static ORDER: Mutex<()> = Mutex::new(());
+
+#[cfg(not(feature = "shuttle"))]
+pub(crate) struct OrderGuard(#[allow(dead_code)] Option<std::sync::MutexGuard<'static, ()>>);
+#[cfg(feature = "shuttle")]
+pub(crate) struct OrderGuard;
+
+/// Hold this across one shared-memory operation and the record that describes it.
+pub(crate) fn order_guard() -> OrderGuard {
+    #[cfg(not(feature = "shuttle"))]
+    {
+        if fetch_on() {
+            OrderGuard(Some(ORDER.lock().unwrap_or_else(|e| e.into_inner())))
+        } else {
+            OrderGuard(None)
+        }
+    }
+    #[cfg(feature = "shuttle")]
+    {
+        OrderGuard
+    }
+}
+
+/// FNV-1a over the in-memory bytes of `value` (meaningful for padding-free plain data only).
+pub(crate) fn digest<T>(value: &T) -> String {
+    let n = std::mem::size_of_val(value);
+    // SAFETY: `value` is a valid reference; its bytes are only read (padding bytes, if any, make
+    // the digest meaningless but the read stays in bounds).
+    let bytes = unsafe { std::slice::from_raw_parts((value as *const T).cast::<u8>(), n) };
+    let mut h: u64 = 0xcbf2_9ce4_8422_2325;
+    for b in bytes {
+        h ^= *b as u64;
+        h = h.wrapping_mul(0x0000_0100_0000_01b3);
+    }
+    format!("{h:016x}")
+}
+
+/// A marker of the harness in the protocol log (`note T TEXT`).
+pub fn verif_note(text: &str) {
+    record_fetch(&[P::S("note"), P::T(thread::current().id()), P::S(text)]);
+}
